@@ -145,6 +145,19 @@ func main() {
 		}
 	}
 	sort.Slice(myFns, func(i, j int) bool { return myFns[i].String() < myFns[j].String() })
+	var foreignWrites []string
+	// stores to / through package-level variables of OTHER packages (net/http.DefaultClient, os.Args, ...)
+	foreignOf := func(v ssa.Value) []*ssa.Global {
+		var out []*ssa.Global
+		for _, r := range root(v, map[ssa.Value]bool{}) {
+			if g, ok := r.(*ssa.Global); ok {
+				if _, mineG := globals[g]; !mineG && g.Pkg != nil && !mine[g.Pkg] {
+					out = append(out, g)
+				}
+			}
+		}
+		return out
+	}
 	globalOf := func(v ssa.Value) []*ssa.Global {
 		var out []*ssa.Global
 		for _, r := range root(v, map[ssa.Value]bool{}) {
@@ -204,6 +217,9 @@ func main() {
 						}
 					}
 				case *ssa.Store:
+					for _, g := range foreignOf(x.Addr) {
+						foreignWrites = append(foreignWrites, f.String()+": store to "+g.Pkg.Pkg.Path()+"."+g.Name())
+					}
 					if hasRefs(x.Val.Type(), map[types.Type]bool{}) {
 						for _, g := range globalOf(x.Val) {
 							if !isInit && len(globalOf(x.Addr)) == 0 {
@@ -220,6 +236,9 @@ func main() {
 						paramStores[f] = append(paramStores[f], "store")
 					}
 				case *ssa.MapUpdate:
+					for _, g := range foreignOf(x.Map) {
+						foreignWrites = append(foreignWrites, f.String()+": map update of "+g.Pkg.Pkg.Path()+"."+g.Name())
+					}
 					if hasRefs(x.Value.Type(), map[types.Type]bool{}) {
 						for _, g := range globalOf(x.Value) {
 							if !isInit {
@@ -346,6 +365,16 @@ func main() {
 		}
 		fmt.Fprintf(&sb, "  {| g_pkg := %s; g_name := %s; g_type := %s; g_writes := %s; g_escapes := %s |}%s\n",
 			coqStr(gi.pkg), coqStr(gi.name), coqStr(gi.typ), strs(uniq(gi.writes)), strs(uniq(gi.escapes)), sep)
+	}
+	sb.WriteString("].\n\n")
+	sort.Strings(foreignWrites)
+	sb.WriteString("(* stores to or through package-level variables of other packages (the standard library, nkeys) *)\n")
+	sb.WriteString("Definition foreign_global_writes : list string := [")
+	for i, fw := range foreignWrites {
+		if i > 0 {
+			sb.WriteString("; ")
+		}
+		sb.WriteString(coqStr(fw))
 	}
 	sb.WriteString("].\n\n")
 	// read-only queries
